@@ -28,7 +28,7 @@ from . import common, sessionlib, modlib
 
 KINDS = ('pass', 'failout', 'failexc', 'failcompile', 'faildirective', 'skipall', 'skippart', 'expexc', 'comment', 'disabled', 'disabledfail', 'needell')
 BOUNDS = {'quick': dict(n=3, dirs=160, per=6), 'thorough': dict(n=4, dirs=700, per=6)}
-OPTS = {'none': '', 'skip': '+SKIP', 'noell': '-ELLIPSIS'}
+OPTS = {'none': '', 'skip': '+SKIP', 'noell': '-ELLIPSIS', 'req': '+REQUIRES(module:xdv_nope_q)'}
 CONFTEST = '''import json
 _R = []
 def pytest_runtest_logreport(report):
@@ -81,7 +81,7 @@ def _dir_case(args):
         # native side: per doctest (named) and the whole module
         path = os.path.join(d, name + '.py')
         nat = case['native']
-        config = {'default_runtime_state': {'none': {}, 'skip': {'SKIP': True}, 'noell': {'ELLIPSIS': False}}[opt]}
+        config = {'default_runtime_state': {'none': {}, 'skip': {'SKIP': True}, 'noell': {'ELLIPSIS': False}, 'req': {'REQUIRES': {'module:xdv_nope_q'}}}[opt]}
         with sessionlib.Env(1):
             res = modlib.run_native(path, 'all', verbose=0, style=style, config=config)
         if 'raised' in res:
@@ -133,7 +133,7 @@ def run(tier):
     out.rule = ('every module of <= %d doctests over 12 outcome kinds x default options {none, +SKIP, -ELLIPSIS} x front end {native, pytest} in Session.tla; '
                 '%d directories of %d modules replayed through `pytest --xdoctest` subprocesses and the native runner, styles rotating' % (b['n'], b['dirs'], b['per']))
     raws = sessionlib.run_tlc_cases(out, 'front ends<=%d' % b['n'], kinds=KINDS, maxdocs=b['n'], commands=('all',), fronts=('native', 'pytest'),
-                                    opts=('none', 'skip', 'noell'))
+                                    opts=('none', 'skip', 'noell', 'req'))
     cases = [sessionlib.decode(r) for r in raws]
     native = {(tuple(c['mod']), c['opt']): c for c in cases if c['front'] == 'native'}
     pyt = [c for c in cases if c['front'] == 'pytest']
@@ -143,8 +143,8 @@ def run(tier):
     rng = random.Random(common.seed() + 15)
     jobs = []
     for i in range(b['dirs']):
-        opt = ['none', 'skip', 'noell'][i % 3]
-        style = ['auto', 'google', 'freeform'][(i // 3) % 3]
+        opt = ['none', 'skip', 'noell', 'req'][i % 4]
+        style = ['auto', 'google', 'freeform'][(i // 4) % 3]
         pool = [c for c in pyt if c['opt'] == opt]
         jobs.append((i, opt, style, [rng.choice(pool) for _ in range(b['per'])]))
     _J['dir'] = common.scratch_dir('xdv-c15')
